@@ -446,7 +446,14 @@ def vh_all(binary, sub, recs, args=None, jobs=12, timeout=3000, env=None, cwd=No
             inp = "\n".join(json.dumps(r) for r in pending) + "\n"
             p = subprocess.run([binary, sub] + (args or []), input=inp, stdout=subprocess.PIPE, stderr=subprocess.PIPE,
                                text=True, timeout=timeout, env=env, cwd=cwd)
-            got = [json.loads(l) for l in p.stdout.splitlines() if l.startswith("{")]
+            got = []
+            for l in p.stdout.splitlines():
+                if not l.startswith("{"):
+                    continue
+                try:
+                    got.append(json.loads(l))
+                except ValueError:
+                    break           # the harness died while writing this line: it counts as not answered
             out.extend(got)
             if p.returncode == 0:
                 break
